@@ -553,9 +553,14 @@ def memo_read(R, d, key):
     c = fr.contract
     args = _memo_args(R, key)
     params = [a.arg for a in fr.fv.node.args.args]
-    if len(args) != len(params):
+    if len(args) > len(params):
         raise OutOfReach('memo key does not match closure parameters')
     values = dict(zip(params, args))
+    # parameters that are not part of the key: the entry may have been stored by a call with ANY value
+    # of them, so they are unknown here (a key that forgets a parameter the result depends on makes the
+    # post-condition of the reading call fail)
+    for p in params[len(args):]:
+        values[p] = R.fresh(c.params[p], 'memo_' + p)
     for name in c.captures:
         values[name] = fr.env.lookup(name)
     result = R.fresh(c.returns, 'memo')
@@ -573,9 +578,11 @@ def memo_store(R, d, key, v):
     d.memo = c.qualname
     args = _memo_args(R, key)
     params = [a.arg for a in fr.fv.node.args.args]
-    if len(args) != len(params):
+    if len(args) > len(params):
         raise OutOfReach('memo key does not match closure parameters')
     values = dict(zip(params, args))
+    for p in params[len(args):]:
+        values[p] = fr.env.lookup(p)      # parameters not in the key: those of the storing call
     for name in c.captures:
         values[name] = fr.env.lookup(name)
     values['result'] = v
